@@ -238,6 +238,7 @@ func runControls(dir string) *controlResult {
 		want map[string]bool
 	}{
 		{"EMPTY-SAFE", map[string]bool{"BadConstIndex": true, "GoodConstIndexGuarded": false, "GoodConstIndexByConstruction": false}},
+		{"RANGE-INDEX-BASE", map[string]bool{"BadSubSliceIndex": true, "GoodSubSliceIndex": false}},
 	} {
 		rule := rules[rc.rule]
 		if rule == nil {
